@@ -55,7 +55,10 @@ CLAIMED["C17"] = {
              "after 4 uses; both arrival RMWs are >= acq_rel; the leader flag is an equality test of the RMW result with 0 (up) / 1 (down); each "
              "spin loop reloads the counter atomically and exits only at the thread count (up) or 0 (down); an exit condition of another form "
              "is evaluated for 1..64 threads over the values the counter takes, and a definite early exit or stuck loop is a violation. A different "
-             "barrier algorithm is reported inconclusive, not as a violation. NOT decided: 'nobody passes early' over all interleavings."),
+             "barrier algorithm is reported inconclusive by those shape rules, but whatever the algorithm the body is interpreted one arrival at a time "
+             "over 10 consecutive uses for 1, 2, 3, 5, 8 threads (one leader per use; waits at every intermediate counter value; passes at the "
+             "final one; a counter whose rest value grows is taken across 2^32). NOT decided: 'nobody passes early' over all interleavings "
+             "(a fast thread re-entering while slow ones are still leaving)."),
     "note": TRUST,
 }
 
